@@ -173,7 +173,7 @@ class Encoder:
         if key not in self._funcs:
             if self.ack:
                 def apply(*args, _name=name):
-                    k = (_name, tuple(a.sexpr() for a in args))
+                    k = (_name, tuple(a.get_id() for a in args))
                     if k not in self._cache:
                         c = z3.Real(smt_name(f"app.{_name}.{len(self.apps.setdefault(_name, []))}"))
                         self.apps[_name].append((args, c))
@@ -225,7 +225,7 @@ class Encoder:
         return n / d
 
     def _note_den(self, d):
-        k = d.sexpr() if hasattr(d, "sexpr") else str(d)
+        k = d.get_id() if hasattr(d, "get_id") else str(d)
         if k not in self._den_keys:
             self._den_keys.add(k)
             self.dens.append(d)
@@ -425,7 +425,7 @@ class Encoder:
             self.used_axioms.add("law b**(-x) = 1/b**x")
         r = self._single(rest)
         pf = self._fn("powf", 2)(b, r)
-        key = ("powf", b.sexpr(), r.sexpr())
+        key = ("powf", b.get_id(), r.get_id())
         if key not in self.used_axioms:
             self.used_axioms.add(key)
             self.side.append(z3.Implies(b > 0, pf > 0))
@@ -464,7 +464,7 @@ class Encoder:
         x = self._single(arg)
         f = self._fn(name, 1)
         fx = f(x)
-        key = (name, x.sexpr())
+        key = (name, x.get_id())
         if key in self.used_axioms:
             return fx
         self.used_axioms.add(key)
@@ -492,6 +492,12 @@ class Encoder:
             self.side.append(self._fn("tan", 1)(fx) == x)
         elif name == "atanh":
             self.side.append(z3.Implies(z3.And(x > -1, x < 1), self._fn("tanh", 1)(fx) == x))
+            if isinstance(arg, sp.tanh):        # artanh(tanh y) = y (tanh is injective on the reals)
+                self.side.append(fx == self._single(arg.args[0]))
+        elif name == "log":
+            if isinstance(arg, sp.exp):         # log(exp y) = y for real y
+                self.side.append(fx == self._single(arg.args[0]))
+            self.side.append(z3.Implies(x > 0, self._fn("exp", 1)(fx) == x))
         return fx
 
     # ---- booleans
